@@ -622,7 +622,7 @@ func ruleGateTable(c *Ctx) {
 				}
 				return false, false
 			}
-			r := &PathRule[gateState]{Fn: pre, Init: []gateState{{}},
+			r := &PathRule[gateState]{Fn: pre, Init: []gateState{{}}, OwnPhi: true,
 				Transfer: func(s gateState, ins ssa.Instruction) []gateState {
 					if sto, ok := ins.(*ssa.Store); ok {
 						if f, base, ok := fieldAddr(sto.Addr); ok {
